@@ -417,6 +417,9 @@ fn run_op(op: &str) -> String {
 
 fn run_case(c: &Case, out: &mut dyn Write) {
     writeln!(out, "case {}", c.id).unwrap();
+    if c.get("kind").is_some() {
+        return; // an oracle replay case (kind=emit|iface): nothing to compare with the model
+    }
     for op in &c.ops {
         writeln!(out, "r {}", run_op(op)).unwrap();
     }
@@ -650,7 +653,8 @@ fn gen_proto_op(rng: &mut Rng, stats: &mut BTreeMap<String, u64>) -> String {
                 }
                 _ => {
                     // echo request / reply through Repr::parse and Repr::emit
-                    let data = rng.bytes(rng.below(64) as usize);
+                    let dl = rng.below(64) as usize;
+                    let data = rng.bytes(dl);
                     let r = if rng.chance(1, 2) {
                         Icmpv4Repr::EchoRequest { ident: rng.next() as u16, seq_no: rng.next() as u16, data: &data }
                     } else {
@@ -693,7 +697,8 @@ fn gen_proto_op(rng: &mut Rng, stats: &mut BTreeMap<String, u64>) -> String {
                 }
                 _ => {
                     let (sa, da) = (Ipv6Address::from_octets(s[..].try_into().unwrap()), Ipv6Address::from_octets(d[..].try_into().unwrap()));
-                    let data = rng.bytes(rng.below(64) as usize);
+                    let dl = rng.below(64) as usize;
+                    let data = rng.bytes(dl);
                     let r = if rng.chance(1, 2) {
                         Icmpv6Repr::EchoRequest { ident: rng.next() as u16, seq_no: rng.next() as u16, data: &data }
                     } else {
@@ -735,7 +740,8 @@ fn gen_proto_op(rng: &mut Rng, stats: &mut BTreeMap<String, u64>) -> String {
                 }
                 _ => {
                     // well-formed segment through Repr::parse / Repr::emit
-                    let payload = rng.bytes(rng.below(80) as usize);
+                    let pl_len = rng.below(80) as usize;
+                    let payload = rng.bytes(pl_len);
                     let syn = rng.chance(1, 3);
                     let r = TcpRepr {
                         src_port: rng.range(1, 65535) as u16,
@@ -759,8 +765,13 @@ fn gen_proto_op(rng: &mut Rng, stats: &mut BTreeMap<String, u64>) -> String {
                         note(format!("tcpe{}", fam));
                         format!("tcpe {} {} {} {} {}", rng.below(2), fam, hex(&s), hex(&d), hex(&b))
                     } else {
+                        // flips only where they cannot make the segment structurally invalid:
+                        // not in ports, data offset, flags or the options
                         let hl = (b[12] >> 4) as usize * 4;
-                        let how = perturb_field_only(rng, &mut b, 16, hl, &[0, 1, 2, 3, 12, 13]);
+                        let mut keep: Vec<usize> = vec![0, 1, 2, 3, 12, 13];
+                        keep.extend(20..hl);
+                        let n = b.len();
+                        let how = perturb_field_only(rng, &mut b, 16, n, &keep);
                         note(format!("tcpp{}:{}", fam, how));
                         format!("tcpp {} {} {} {} {}", rng.below(2), fam, hex(&s), hex(&d), hex(&b))
                     }
@@ -902,7 +913,7 @@ fn gen_cases(seed: u64, n: usize, tier: &str, out: &mut dyn Write, stats: &mut B
     }
 }
 
-include!("h_cksum_oracles.inc.rs");
+include!("h_cksum_inc/oracles.rs");
 
 fn main() {
     quiet_panics();
